@@ -370,7 +370,12 @@ fn non_exhaustive(m: &Model, ctx: &mut Ctx, ev: &Evaluator) {
         let var = tok(&c.out[0].pat);
         let init = c.out[0].init.as_ref().unwrap().expr.clone();
         // the decision's receiver variable (enumerated / choice / seq)
-        let recv = tok(&init).split(".extensible").next().unwrap_or("").to_string();
+        // the identifier in front of `.extensible`, whatever expression it stands in (method chain, match scrutinee, ..)
+        let recv = {
+            let t = tok(&init);
+            let head = t.split(".extensible").next().unwrap_or("");
+            head.rsplit(|c: char| !(c.is_alphanumeric() || c == '_')).next().unwrap_or("").to_string()
+        };
         for ext in [None, Some(0usize), Some(2)] {
             for envn in ["Implied", "Explicit"] {
                 let key = format!("{}: marker={:?} extensibility={}", fname, ext, envn);
@@ -389,6 +394,8 @@ fn non_exhaustive(m: &Model, ctx: &mut Ctx, ev: &Evaluator) {
                         let got = match &v {
                             Val::Sym(s) => s.contains("non_exhaustive"),
                             Val::List(l) => !l.is_empty(),
+                            // an empty token stream: no attribute
+                            Val::Opaque(s) if s.contains("TokenStream::new") || s.contains("TokenStream::default") => false,
                             o => {
                                 ctx.fail_closed("C05.nonexh", &format!("[{}]: result {}", key, o.show()));
                                 continue;
